@@ -327,10 +327,16 @@ def schedule_is_valid(N, E, R, st, sl, ix):
     s, t, p = z3.Ints("s!sv t!sv p!sv")
     inrange = z3.And(0 <= s, s < R.n, 0 <= t, t < ln(seq_at(R, s)), 0 <= p, p < ln(seq_at(R, s, t)))
     d = seq_at(R, s, t, p)
+    s2, t2, p2 = z3.Ints("s2!sv t2!sv p2!sv")
+    inrange2 = z3.And(0 <= s2, s2 < R.n, 0 <= t2, t2 < ln(seq_at(R, s2)), 0 <= p2, p2 < ln(seq_at(R, s2, t2)))
+    d2 = seq_at(R, s2, t2, p2)
     return [
         ("every-discipline-is-scheduled", FA([u], z3.Implies(N.member[u], z3.And(0 <= st[u], st[u] < R.n, 0 <= sl[u], sl[u] < ln(seq_at(R, st[u])), 0 <= ix[u], ix[u] < ln(seq_at(R, st[u], sl[u])),
                                                                                  seq_at(R, st[u], sl[u], ix[u]) == u)), st[u])),
         ("exactly-once-and-nothing-else", FA([s, t, p], z3.Implies(inrange, z3.And(N.member[d], st[d] == s, sl[d] == t, ix[d] == p)), d)),
+        # the same fact without the ghost locations (no new term is created when it is instantiated: used as hypothesis by the coupling contracts)
+        ("only-disciplines-are-scheduled", FA([s, t, p], z3.Implies(inrange, N.member[d]), d)),
+        ("positions-hold-distinct-disciplines", FA([s, t, p, s2, t2, p2], z3.Implies(z3.And(inrange, inrange2, d == d2), z3.And(s == s2, t == t2, p == p2)), z3.MultiPattern(d, d2))),
         ("groups-are-the-classes-of-mutual-dependency", z3.ForAll([u, v], z3.Implies(z3.And(N.member[u], N.member[v]), same_group(st, sl, u, v) == z3.And(reach(E, u, v), reach(E, v, u))))),
         ("producers-strictly-before-consumers", z3.ForAll([u, v], z3.Implies(z3.And(N.member[u], N.member[v], E[u][v], z3.Not(same_group(st, sl, u, v))), st[u] < st[v]))),
         ("groups-in-caller-order", z3.ForAll([u, v], z3.Implies(z3.And(N.member[u], N.member[v], same_group(st, sl, u, v), ix[u] < ix[v]), N.pos[u] < N.pos[v]))),
@@ -469,10 +475,14 @@ def is_state(d, k):
     return z3.Exists([r], z3.And(PG.rts_member(d)[r], PG.rts_vals(d)[r] == k))
 
 
-def self_coupled(d):
-    """An output that is also an input and not a state variable of a residual."""
+self_coupled = z3.Function("self_coupled", DiscS, z3.BoolSort())
+"""self_coupled(d): some output of d is also an input and not a state variable of a residual (defined by self_coupled_definition)."""
+
+
+def self_coupled_definition():
+    d = D("d!scd")
     k = z3.Const("k!sc", StrS)
-    return z3.Exists([k], z3.And(in_names(d)[k], out_names(d)[k], z3.Not(is_state(d, k))))
+    return [("definition-of-self-coupled", z3.ForAll([d], self_coupled(d) == z3.Exists([k], z3.And(in_names(d)[k], out_names(d)[k], z3.Not(is_state(d, k)))), patterns=[self_coupled(d)]))]
 
 
 @register
@@ -481,6 +491,9 @@ class IsSelfCoupled(Contract):
     prop = ("C08",)
     params = {"discipline": TDisc}
     returns = TBool
+
+    def axioms(self, c):
+        return self_coupled_definition()
 
     def ensures(self, c):
         return [("value", c.result == self_coupled(c.old.discipline))]
